@@ -60,7 +60,9 @@ bool sod_ref(const Params& P, const Pt& p, std::vector<Expect>& out) {
 }
 
 // ------------------------------------------------------------------------------------------ cp_normal
-const std::vector<std::vector<LD>> DATA = {{1.0L}, {1.0L, 2.0L, 6.0L}, {-3.0L, 0.5L, 0.5L, 4.0L}};
+// the last vector has exactly representable entries but a mean (7/3) that no binary format holds: an accumulator of the wrong
+// precision shows there and nowhere else
+const std::vector<std::vector<LD>> DATA = {{1.0L}, {1.0L, 2.0L, 6.0L}, {-3.0L, 0.5L, 0.5L, 4.0L}, {1.0L, 2.0L, 4.0L}};
 void cp_apply_variant(int v) {
   std::vector<LD> dl = DATA[v]; std::vector<double> dd(dl.begin(), dl.end());
   MASA::masa_set_vec<LD>("vec_data", dl); MASA::masa_set_vec<double>("vec_data", dd);
